@@ -203,3 +203,4 @@ Arguments prog V A : clear implicits.
 Arguments bucket V : clear implicits.
 Arguments omap V : clear implicits.
 Arguments Ret {V A}. Arguments Fail {V A}. Arguments Do {V A}.
+Arguments Done {A}. Arguments Failed {A}. Arguments Crashed {A}. Arguments OutOfFuel {A}.
